@@ -1,4 +1,5 @@
 import QuillModel.Backend.SinkBack
+import QuillModel.Backend.FlagProofs
 /-!
 # C17 — removing / re-creating loggers never loses statements nor frees state in use
 
@@ -75,6 +76,18 @@ theorem C17_erase_only_when_drained (s0 : BSt) (h0 : LoggerFresh s0) (ops : List
       ((allEmpty s).1.th i).buf = [] ∧ ((allEmpty s).1.th i).qStmts = [] :=
   fun he => allEmpty_drained _ (FInv_runOps s0 h0.inv ops).1.1 he
 
+/-- **The erase step rests on the emptiness check of the current state.** The loop of
+    `cleanup_invalidated_loggers` visits the loggers one by one, and between two of them — inside a sink's
+    destructor, hook site 9 — frontend threads run. What lets the invariant survive the erase of logger `i` is that
+    the check `check_queues_empty()` answered yes *on the state `x` the loop is in when it reaches `i`*
+    (`(allEmpty x).2 = true`), not on the state the clean-up started from: then nothing waits in any context and,
+    the logger being invalid, nobody is parked in a call through it. `FInv_runOps` (every schedule, with arbitrary
+    operations injected at site 9) goes through this lemma for every erased logger; a check hoisted out of the loop
+    does not provide its hypothesis — see `C17_hoisted_check_erases_queued_logger`. -/
+theorem C17_erase_step_guarded (x : BSt) (hx : LInv x) (i : Nat) (hv : (x.lgOf i).valid = false)
+    (he : (allEmpty x).2 = true) : LInv ((allEmpty x).1.setLg i (fun l => { l with erased := true })) :=
+  LInv_erase hx i hv he
+
 /-- **A sink is destroyed exactly when nobody holds it.** In every reachable state a sink whose destructor has run
     (`alive = false`) is referenced neither by the user (`userRef = false`: the user dropped its `shared_ptr`) nor
     by any logger object that is not erased; conversely every sink of a logger that is not erased — in particular
@@ -128,6 +141,32 @@ theorem C17_parked_removal_exclusive (s0 : BSt) (h0 : LoggerFresh s0) (ops : Lis
   intro s x hx hal st hst hr
   have h := (FInv_runOps s0 h0.inv ops).1.2.1
   exact ⟨h.noname x hx hal st hst hr, h.excl x hx hal st hst hr⟩
+
+/- Full statement aimed at (not proved): in every reachable state, for every statement `st` of kind `.removal f`
+   in some thread's `accepted` history, `f ∈ s.flags → (s.lgOf st.lg).erased = true` — "`remove_logger_blocking`
+   returns only after the logger is gone". What is missing is the uniqueness of flag numbers across all statements
+   (flush flags and removal flags are drawn from the same counter `nextFlag`), needed to rule out that the flag of a
+   processed Flush request coincides with a pending removal flag. Proved instead: the two places that raise flags
+   raise the right ones — `processLowest` raises exactly the flag of the Flush event it has just popped
+   (`PC.processEvent_flag` + the `raise` leaf of the schedule skeleton), and the logger clean-up raises a recorded
+   removal flag only for a name one of whose objects it has erased in that very pass: -/
+
+/-- **The removal flag is raised only after the erase** (`…_partial`, see the comment above): every flag the logger
+    clean-up adds was recorded (when the removal request was decoded) for a name `g` such that a logger object of
+    name `g`, not erased before, is erased after the clean-up — the store to the flag follows the erase and the
+    sink pruning in `cleanupLoggers`, so a caller parked in `remove_logger_blocking` (it resumes only when its flag
+    is in `flags`) finds the name free and the object gone. -/
+theorem C17_removal_flag_after_erase_partial (inj : BSt → Nat → BSt) (hq : Quiet9 inj) (s : BSt) :
+    ∀ f ∈ (cleanupLoggers inj s).flags, f ∈ s.flags ∨
+      ∃ g i, (g, f) ∈ s.removalFlags ∧ i < s.lgs.length ∧ (s.lgOf i).gid = g ∧ (s.lgOf i).erased = false ∧
+        ((cleanupLoggers inj s).lgOf i).erased = true :=
+  cleanupLoggers_flags inj hq s
+
+/-- a caller waiting for a flag resumes only once the flag has been raised -/
+theorem C17_flag_wait (s : BSt) (a f : Nat) (hp : (s.actor a).map (·.pend) = some (Pend.flag f))
+    (hn : s.flags.contains f = false) : resume s a = (s, "parked:sleep") := by
+  unfold resume
+  simp only [hp, hn, Bool.false_eq_true, if_false]
 
 /-! ### `create_or_get_logger` -/
 
@@ -237,5 +276,35 @@ example :
     (s.log.filterMap c17Ev).reverse = [(0, 0), (0, 100), (1, 0), (0, 101)] ∧
     (s.lgOf 0).erased = true ∧ (s.sinkOf 0).alive = false ∧ (s.sinkOf 1).alive = true ∧ loggerOf s 0 = some 2 := by
   refine ⟨by decide +kernel, by decide +kernel, by decide +kernel, by decide +kernel, by decide +kernel⟩
+
+/-! ### the check must not be hoisted out of the loop (seeded mutant C17_m1 in miniature) -/
+
+/-- the logger clean-up with the emptiness check evaluated once, before the loop (not the model: the mutant) -/
+def cleanupLoggersHoisted (inj : BSt → Nat → BSt) (s : BSt) : BSt :=
+  let s0 : BSt := { s with hasInvalidLoggers := false }
+  let r0 := allEmpty s0
+  (((lgOrder s0).foldl (fun (acc : BSt × List Nat) i =>
+      if (acc.1.lgOf i).valid then acc else
+      if r0.2 then
+        (reapSinksInj inj (acc.1.setLg i (fun l => { l with erased := true })) (acc.1.lgOf i).sinks,
+          acc.2 ++ [(acc.1.lgOf i).gid])
+      else ({ acc.1 with hasInvalidLoggers := true }, acc.2)) (r0.1, [])).1)
+
+/-- logger 0 is removed with everything empty; while its sink 0 is being destroyed (site 9) a thread logs through
+    logger 1 and removes it -/
+def c17Race : List (Nat × Nat × List FOp) := [(9, 1, [.log 0 1 4 8 false, .remove 0 1])]
+
+def c17Before : BSt :=
+  { runOps c17Init [.front (.tstart 0), .front (.dropSink 0), .front (.remove 0 0)] with siteCnt := [] }
+
+/-- **With the check hoisted, a logger is erased while its statement is still queued**; the model's clean-up
+    (check per logger, on the current state) keeps it. -/
+theorem C17_hoisted_check_erases_queued_logger :
+    (let s := cleanupLoggersHoisted (runInj c17Race) c17Before
+     ((s.th 0).qStmts.map (fun st => (s.lgOf st.lg).erased)) = [true]) ∧
+    (let s := cleanupLoggers (runInj c17Race) c17Before
+     ((s.th 0).qStmts.map (fun st => (s.lgOf st.lg).erased)) = [false] ∧ (s.lgOf 0).erased = true ∧
+       (s.lgOf 1).valid = false) := by
+  refine ⟨by decide +kernel, by decide +kernel, by decide +kernel, by decide +kernel⟩
 
 end Backend
